@@ -14,7 +14,7 @@
    panic, which assigned nothing.  For scripts without panics [fn_ret o = (oval o, oerr o)] and
    [shared] is the identity ([Proofs.fn_ret_nopanic], [Proofs.shared_id]). *)
 From Coq Require Import List ZArith Bool Arith.
-From GZ Require Import Lib.Sched C07.Model C07.Proofs C07.ProofsB C07.ProofsC C07.Check C07.CheckProofs C07.CheckProofsB C07.CheckModel.
+From GZ Require Import Lib.Sched C07.Model C07.Proofs C07.ProofsB C07.ProofsC C07.Check C07.CheckProofs C07.CheckProofsB C07.CheckModel C07.CheckModelB.
 Import ListNotations.
 Local Open Scope nat_scope.
 
@@ -419,8 +419,36 @@ Example ex_model_log_blk :
   map (fun e => (Z.of_nat (ea e), ek e)) (mlog ex_scripts [0;0;0;1;1;1]) = [(0, 0); (0, 1); (1, 0); (1, 4)]%Z.
 Proof. vm_compute. reflexivity. Qed.
 
-(* The other conjuncts of prop_ok ([ret_ok], [fresh_once], [created_once], [own_once]) are not proved to
-   accept every model log (only [scan] is: [model_log_passes_scan]); here they are evaluated on the model's
+(* Round 4.  SOUNDNESS of the whole judgement: a log accepted by [prop_ok_conc] (primitives, no cache in front)
+   satisfies [CheckProofs.log_ok], the property text on logs: scan; every SingleFlight result is what an execution
+   of the same key handed over, the caller's own or an overlapping one ([may_share], read by
+   CheckProofs.may_share_spec), or the (nil, nil) of an overlapping panicked leader; every LockedCalls caller ran
+   its own function exactly once before it returned and got its result; every GetResource result is the instance
+   of a successful create of its key that ended before, or the error of an overlapping creation; no function
+   starts twice for one call, no two returns are reported fresh for one execution, at most one successful create
+   per key.  COMPLETENESS w.r.t. the model: [scan], [created_once] and [own_once] accept the event log of every
+   run of the LTS (any scripts, any schedule). *)
+Theorem checker_prop_ok_sound : forall c, ccache c = false -> prop_ok_conc c = true -> log_ok c.
+Proof. exact prop_ok_conc_sound. Qed.
+Print Assumptions checker_prop_ok_sound.
+
+Theorem model_log_passes_counts : forall scripts sched,
+  scan (mcase scripts sched) (mlog scripts sched) [] = true /\
+  forallb (fun x => created_once (mcase scripts sched) x && own_once (mcase scripts sched) x)
+          (execs (mcase scripts sched)) = true.
+Proof. exact model_log_passes_counts_l. Qed.
+Print Assumptions model_log_passes_counts.
+
+(* non-trivial instances: a model log with two creations (one failed) and a retry; log_ok of a real log *)
+Example ex_counts_nontrivial :
+  let c := mcase [[mkOp GRM 1 101 5]; [mkOp GRM 1 201 0]; [mkOp GRM 1 301 0]]
+                 [0;0;0;0;0;0;0; 1;1;1;1;1;1;1;1; 2;2;2;2;2;2] in
+  (length (execs c), prop_ok_conc c) = (2%nat, true).
+Proof. vm_compute. reflexivity. Qed.
+
+(* [ret_ok] and [fresh_once] are not proved to accept every model log ([scan], [created_once], [own_once] are:
+   [model_log_passes_counts]; [ret_ok] needs the correspondence between ghost time stamps and log positions,
+   [fresh_once] holds only for distinct values); here all conjuncts are evaluated on the model's
    own logs of a few runs with joins, errors, panics, retries, all three primitives, two keys.  They
    identify an execution by its value, so they assume what the generator guarantees: the values of
    the calls on one key are pairwise distinct (last example: the same value twice is rejected). *)
